@@ -22,7 +22,8 @@
      (+ AuthResponseToken for the implicit flow)         create_token_response
    jwtProfileClient                                      eff_client
    SignerFromKey + crypto.Sign (symbolic)                sign_desc, sym_token
-   keys.go jsonWebKeySet over Storage.KeySet             served_keys
+   keys.go jsonWebKeySet over Storage.KeySet             served_keys (every key, as is)
+   Storage.SigningKey, once per signed token             key_at_call, id_key_call
    refstore: ids, expiry, userinfo, private claims       st_* / userinfo / custom_claims
 
    Times: [now] is Unix ns (Z); skew and lifetimes are whole seconds (Z);
@@ -341,13 +342,16 @@ Section Response.
            (mk_access_token_claims issuer f cl rq tid (st_exp now (cl_at_life cl)) now)
     else AOpaque (mk_bearer E (en_iv en) tid (rq_sub rq)).
 
-  Definition create_token_response (issuer : string) (f : flow) (cl0 : client) (k : sigkey)
+  (* kat: what Storage.SigningKey answered inside CreateJWT, kid: what it answered
+     inside CreateIDToken.  Each token takes header, signature and hash family
+     from the ONE key of its own call. *)
+  Definition create_token_response (issuer : string) (f : flow) (cl0 : client) (kat kid : sigkey)
              (u : option user) (rq : request) (state : string)
              (ids : next_ids) (en : entropy) (now : Z) : response :=
     let cl := eff_client f rq cl0 in
-    let acc := if has_access f then mk_access issuer f cl k rq ids en now else ANone in
+    let acc := if has_access f then mk_access issuer f cl kat rq ids en now else ANone in
     let idt := if has_id_token f (rq_scopes rq)
-               then Some (sign_desc k, mk_id_token H issuer f cl k u rq (access_wire acc) now)
+               then Some (sign_desc kid, mk_id_token H issuer f cl kid u rq (access_wire acc) now)
                else None in
     mkResp acc idt
            (match f with FExchange RIDTok => true | _ => false end)
@@ -359,6 +363,14 @@ Section Response.
            (match f with FExchange r => rtype_urn r | _ => "" end).
 End Response.
 
-(* keys.go: every storage key, as published *)
-Definition served_keys (k : sigkey) (extra : list jwk) : list jwk :=
-  mkJwk (sk_kid k) "sig" (sk_ty k) (sk_mat k) :: extra.
+(* keys.go: every key of Storage.KeySet, in its order, with its kid / use / type *)
+Definition served_keys (storage_keys : list jwk) : list jwk := storage_keys.
+
+(* The storage as a changing environment: the signing key may be replaced after
+   the rot-th SigningKey call of the request (rot = 0: never).  The n-th call: *)
+Definition key_at_call (rot : nat) (k1 k2 : sigkey) (n : nat) : sigkey :=
+  if (rot =? 0) || (n <=? rot) then k1 else k2.
+
+(* CreateJWT makes the first SigningKey call of a response, CreateIDToken the next *)
+Definition id_key_call (f : flow) (cl : client) : nat :=
+  if has_access f && cl_jwt_at cl then 2 else 1.
